@@ -177,6 +177,15 @@ func selectorPath(info *types.Info, e ast.Expr) (types.Object, []string) {
 			}
 			return obj, rev
 		case *ast.SelectorExpr:
+			// a field of a struct the function allocated itself is a variable of its own (pseudo.go)
+			// when it is the base of a longer path (x.f alone stays "field f of x" for the callers that look at the
+			// field written or read)
+			if po := pseudoFieldObj(info, x); po != nil && len(rev) > 0 {
+				for i, j := 0, len(rev)-1; i < j; i, j = i+1, j-1 {
+					rev[i], rev[j] = rev[j], rev[i]
+				}
+				return po, rev
+			}
 			rev = append(rev, x.Sel.Name)
 			e = x.X
 		case *ast.CallExpr:
@@ -267,6 +276,12 @@ func appendTarget(info *types.Info, s ast.Stmt) (types.Object, []ast.Expr) {
 		return nil, nil
 	}
 	if len(lp) > 0 {
+		// a field of a struct the function built itself is a variable of its own (pseudo.go)
+		if se, ok := ast.Unparen(as.Lhs[0]).(*ast.SelectorExpr); ok && len(lp) == 1 {
+			if po := pseudoFieldObj(info, se); po != nil && lhsObject(info, call.Args[0]) == po {
+				return po, call.Args[1:]
+			}
+		}
 		return nil, nil // field append handled by callers through selectorPath
 	}
 	return lobj, call.Args[1:]
